@@ -15,19 +15,19 @@ ordinary statement:
   levels and bodies are finite; and more fuel never changes an answer;
 * `C14_literals`: literal conversion panics on no digit string the grammar can
   produce (it fails exactly on empty or non-digit strings);
-* `C14_eval_total` / bounded recursion: evaluation is a total function that gives
+* `C14_depth_limit`, `C14_include_limit`, `C14_division_by_zero` (bounded recursion): evaluation is a total function that gives
   up with `MacroRecursionLimit` after 255 nested macro levels
   (`maxMacroDepth`), instruction macro expansion likewise (`expandMacro`),
   file inclusion after 255 nested sources (`resolveAndIngest`);
 * `C14_ingest_result`: ingestion returns bytes or an error value.
 * `C14_parse`: for EVERY source text the parser model (pest interpreter over the
-  regenerated grammar, then the pair-tree walk of `parse_asm` with its 24
+  regenerated grammar, then the pair-tree walk of `parse_asm` with its 23
   `unwrap` / `unreachable!` / `assert!` sites) reaches none of those sites: the
   interpreter is sound for a token-shape / matched-text semantics of grammar
   expressions (`PestShape.shape_sound`), the regenerated grammar's rules satisfy the
   shape specification the walk relies on (`GrammarClosed.spec_closed`, rule by
   rule), and on such trees the walk returns a value or an error (`ParseGood`);
-* `C14_ingest`: hence the whole text-to-bytes path of the model (`preprocess` and
+* `C14_preprocess_parse`: hence the whole text-to-bytes path of the model (`preprocess` and
   `assemble`) reports no panic other than a fuel marker.
 Partial by nature: (a) the pest interpreter and the walk are MODELS of pest
 2.1.3 / `parse/*.rs`, tied to the real parser by the correspondence run on valid,
